@@ -20,7 +20,9 @@ SelectPool == << [m |-> "from_", src |-> "T5"], [m |-> "into", src |-> "T2"], [m
                  [m |-> "where", crit |-> Cmp(Fld("T1", "a"), Num("1"))], [m |-> "where", crit |-> Cmp(Fld("T1", "b"), Num("2"))],
                  [m |-> "groupby", terms |-> <<Fld("T1", "a")>>], [m |-> "having", crit |-> Gt(Sum(Fld("T1", "b")), Num("3"))],
                  [m |-> "orderby", terms |-> <<Fld("T1", "a")>>, dir |-> ""], [m |-> "limit", n |-> 5], [m |-> "offset", n |-> 2],
-                 [m |-> "distinct"], JoinT2, [m |-> "force_index", name |-> "i1"], [m |-> "use_index", name |-> "i2"], [m |-> "for_update"] >>
+                 [m |-> "distinct"], JoinT2, [m |-> "force_index", name |-> "i1"], [m |-> "use_index", name |-> "i2"], [m |-> "for_update"],
+                 \* ordering / grouping by the aliased TERM itself: written as the alias once the select list defines it, whichever call came first
+                 [m |-> "orderby", terms |-> <<FldA("T1", "b", "alb")>>, dir |-> "DESC"], [m |-> "groupby", terms |-> <<FldA("T1", "b", "alb")>>] >>
 InsertPool == << [m |-> "columns", names |-> <<"a", "b">>], [m |-> "insert", row |-> <<Num("1"), Num("2")>>],
                  [m |-> "insert", row |-> <<Num("3"), Num("4")>>], [m |-> "on_conflict", names |-> <<"a">>],
                  [m |-> "do_update", col |-> "b", val |-> Num("9")], [m |-> "do_nothing"], [m |-> "where", crit |-> Cmp(Fld("T1", "a"), Num("1"))],
